@@ -25,7 +25,7 @@ MEDIAN_CFGS = [
     {"widths": [1, 1, 2, 1, 1, 2], "modes": ["constant", "edge", "constant", "constant", "edge", "constant"], "values": [1, 0, 0, 1, 0, 1]},
 ]
 MEDIAN_SHAPES_Q = [(3, 2, 1), (2, 2, 2), (1, 1, 3)]
-MEDIAN_SHAPES_T = MEDIAN_SHAPES_Q + [(2, 1, 3), (3, 3, 1), (1, 4, 1), (3, 2, 2), (2, 3, 2), (1, 3, 3), (3, 1, 3), (4, 1, 1), (1, 1, 1), (2, 2, 3)]
+MEDIAN_SHAPES_T = MEDIAN_SHAPES_Q + [(2, 1, 3), (3, 3, 1), (1, 4, 1), (1, 3, 3), (3, 1, 3), (4, 1, 1), (1, 1, 1)]
 MEDIAN_KERNELS_Q = [(3, 3, 1), (3, 3, 3), (1, 1, 3)]
 MEDIAN_KERNELS_T = [k for k in itertools.product((1, 3), repeat=3)] + [(5, 1, 1), (1, 5, 3), (3, 1, 5)]
 
@@ -111,16 +111,16 @@ def gen_median(ctx):
 PILLAR_EPS_Q = [[[1, 1], [2, 1]], [[2, 1], [1, 1], [4, 1]]]  # dictionary order deliberately unsorted
 PILLAR_EPS_T = PILLAR_EPS_Q + [[[8, 1], [1, 1], [4, 1]], [[2, 1], [8, 1]], [[4, 1], [1, 1], [8, 1], [2, 1]]]
 PILLAR_AXSHAPES_Q = [(3, (1, 1, 3)), (1, (2, 1, 1)), (2, (1, 2, 1)), (3, (2, 1, 2))]
-PILLAR_AXSHAPES_T = PILLAR_AXSHAPES_Q + [(1, (3, 1, 1)), (1, (1, 1, 1)), (2, (1, 1, 2)), (2, (1, 3, 1)), (1, (2, 2, 1)), (2, (2, 2, 1)),
-                                         (3, (1, 1, 4)), (1, (2, 1, 2)), (3, (1, 1, 2))]
+PILLAR_AXSHAPES_T = PILLAR_AXSHAPES_Q + [(1, (3, 1, 1)), (1, (1, 1, 1)), (2, (1, 1, 2)), (2, (1, 3, 1)), (1, (2, 2, 1)), (3, (1, 1, 4)),
+                                         (3, (1, 1, 2))]
 METRICS = ["euclidean", "permittivity_differences_plus_average_permittivity"]
 
 
 def gen_pillar(ctx):
     rng = random.Random(ctx.seed + 2)
     quick = ctx.quick
-    grid3 = [1, 3, 4, 6, 8] if quick else list(range(10))
-    grid4 = [1, 5, 8] if quick else [0, 1, 2, 3, 4, 6, 8, 9]
+    grid3 = [1, 3, 4, 6, 8] if quick else [0, 1, 2, 3, 4, 6, 8, 9]
+    grid4 = [1, 5, 8] if quick else [0, 2, 4, 8, 9]
     n = 0
     for eps in PILLAR_EPS_Q if quick else PILLAR_EPS_T:
         for bg in range(0, len(eps) + 1):  # 0 = None, else dictionary position of the named background
